@@ -292,6 +292,39 @@ def replay_interp(beh):
     want = [expand_text(x) for x in beh['readback']]
     if got != want:
         return (opt, 'value', 'read back %r, specification %r (files %s argv %s)' % (got, want, [x.replace('\n', ' | ') for x in inis], argv))
+    # the same layering through the API, reading every option back after EACH source (the value a
+    # reference shows must follow later changes of the option it names)
+    try:
+        from argparse import ArgumentParser
+        cfg = real_config()
+        d = tempfile.mkdtemp(prefix='verif-c16-')
+        try:
+            def rd(txt):
+                p = os.path.join(d, 'f.ini')
+                with open(p, 'w') as f:
+                    f.write(txt)
+                cfg.read(p)
+            rd(base)
+            parser = ArgumentParser('x')
+            cfg.registerArgparse(parser)
+            first = [cfg[sec][key] for sec, key in INTERP_OPTS]
+            for i, txt in enumerate(inis):
+                if txt:
+                    rd(txt)
+                got = [cfg[sec][key] for sec, key in INTERP_OPTS]
+                want = [expand_text(x) for x in beh['rbh'][i]]
+                if got != want:
+                    return (opt, 'stale', 'after reading file %d (%s) the options read back %r, specification %r'
+                            % (i + 1, txt.replace('\n', ' | '), got, want))
+            cfg.updateFromDict(vars(parser.parse_args(argv)))
+            got = [cfg[sec][key] for sec, key in INTERP_OPTS]
+            want = [expand_text(x) for x in beh['rbh'][-1]]
+            if got != want:
+                return (opt, 'stale', 'after the command line %s the options read back %r, specification %r' % (argv, got, want))
+        finally:
+            shutil.rmtree(d, ignore_errors=True)
+    except BaseException as ex:
+        return (opt, 'raise', 'API layering files %s argv %s raised %s: %s' % (inis, argv, type(ex).__name__, ex))
     return (opt, 'ok', '')
 
 
